@@ -240,10 +240,13 @@ class pile_sizing:
         inr = both(0 <= j, j < n)
         yield "fixed-only-if-every-item-can-be-drawn-in-a-fixed-pile", implies(both(hx, inr, neg(pile_unsupported(old, j))), pile_item_ok_fixed(old, j))
         # FAILS-ON-TREE: Pile([Text('a'), Overlay(Text('ab'), SolidFill('.'), 'center', 'pack', 'middle', 'pack')]) reports FLOW
-        # (the weighted Overlay is FIXED + BOX, not FLOW); render((5,)) raises WidgetError 'Cannot pack (maxcol,) size'
+        # (the weighted Overlay is FIXED + BOX, not FLOW); render((5,)) raises WidgetError 'Cannot pack (maxcol,) size'.
+        # Every counterexample: `both(a.g_child_kind == 'weight', neg(a.g_child_flow))`
         yield "flow-only-if-every-item-can-be-drawn-in-a-flow-pile", implies(both(hf, inr, ST(n) != 1, neg(pile_unsupported(old, j))), pile_item_ok_flow(old, j))
         # FAILS-ON-TREE: C01-KF11 and wider: Pile([Text('a'), (2, SolidFill('x'))]) reports BOX on account of the given box item;
-        # render((5, 4)) hands the weighted flow-only Text a box size: ValueError 'too many values to unpack (expected 1)'
+        # render((5, 4)) hands the weighted flow-only Text a box size: ValueError 'too many values to unpack (expected 1)'; likewise
+        # Pile([SolidFill('x'), Text('a')]) (BOX only: the strict box item decides, the weighted Text after it is not looked at).
+        # Every counterexample: `both(a.g_child_kind == 'weight', neg(a.g_child_box))`
         yield "box-only-if-every-item-can-be-drawn-in-a-box-pile", implies(both(hb, inr, ST(n) != 1, neg(pile_unsupported(old, j))), pile_item_ok_box(old, j))
 
     def ensures_callee(old, s, a, result):
@@ -468,7 +471,15 @@ class columns_sizing:
         inr = both(0 <= j, j < n, ok, neg(nothing))
         yield "box-only-if-every-column-can-be-drawn-in-a-box-columns", implies(both(hb, inr), col_ok_box(old, j))
         yield "flow-only-if-every-column-can-be-drawn-in-a-flow-columns", implies(both(hf, inr), col_ok_flow(old, j))
+        # FAILS-ON-TREE: (a) C01-KF10: a weighted column whose child is FIXED and BOX but not FLOW and that is not in box_columns:
+        #   Columns([Overlay(Text('ab'), SolidFill('.'), 'center', 'pack', 'middle', 'pack')]) reports FIXED, pack(()) raises ColumnsError;
+        # (b) a packed column in box_columns whose child is FIXED (and BOX): Columns([('pack', Overlay(Text('ab'), SolidFill('.'),
+        #   'center', 'pack', 'middle', 'pack'))], box_columns=[0]) reports FIXED, pack(()) / render(()) raise TypeError ('<=' between
+        #   NoneType and int).  Every counterexample: `either(both(a.g_child_kind == 'pack', a.g_child_is_box),
+        #   both(a.g_child_kind == 'weight', neg(a.g_child_is_box), neg(a.g_child_flow)))`
         yield "fixed-only-if-every-column-can-be-drawn-in-a-fixed-columns", implies(both(hx, inr), col_ok_fixed(old, j))
+        # FAILS-ON-TREE: every column is in box_columns: Columns([(5, Filler(Text('a'), 'top'))], box_columns=[0]) reports FIXED
+        # (GIVEN FLOW -> FIXED), pack(()) / render(()) raise ColumnsError('No height information ...').  `a.g_child_is_box`
         yield "fixed-only-if-some-column-has-a-height-of-its-own", implies(both(hx, ok, neg(nothing)), CF("CHG", n))
 
     def ensures_callee(old, s, a, result):
